@@ -73,7 +73,9 @@ GlobalLeaves == <<
   Glob("ci2", "const", <<2>>, "i", <<Z(-3), Z(2)>>),
   \* sorted data for searchsorted / interp
   Glob("cs3", "const", <<3>>, "f", <<Z(-1), Q(1, 2), Z(2)>>),
-  Glob("as3", "arg", <<3>>, "f", <<Z(0), Z(1), Z(3)>>)
+  Glob("as3", "arg", <<3>>, "f", <<Z(0), Z(1), Z(3)>>),
+  \* integer square matrix (det / inv of integers are real)
+  Glob("ci22", "const", <<2, 2>>, "i", <<Z(2), Z(1), Z(1), Z(1)>>)
 >>
 
 \* point-dependent leaves: pv = per-point flat values
